@@ -32,6 +32,9 @@ ASSUMPTIONS = ['one thread; caller stack shallower than the limit; limits above 
                '(CPython 3.12.1 aborts when very deep generator chains are closed)',
                '"afterwards" = after the generator is finalised (if the caller holds it: after the caller closes it)',
                'a RuntimeError/StopIteration raised by the projection is swallowed by design (result is the prefix so far)']
+RULE_ADDED = (' Added after the rounds of independently written changes (DESIGN.md 12.2): ' +
+              "nested evaluate_bounded inside the projection; projections that read through get_value; limits above the interpreter's current limit; the query re-run and every query variable probed afterwards; meta-calls and control constructs around the deep goal followed by alternatives; a gc pass needed to unbind is a violation.")
+RULE = RULE + RULE_ADDED
 
 
 class Custom(Exception):
